@@ -131,3 +131,27 @@ def value_at_zero(term, zvar, assume):
                 continue  # ln(1-z)^e -> 0
             raise NotIntegrable(f"local part contains {n.atoms.name(i)}")
     return total
+
+
+def value_at_zero_general(term, zvar):
+    """loc(0+) by evaluating the term at z = 10^-35 with 40-digit arithmetic (local parts are
+    continuous at 0: polynomials in z, ln(1-z), Li2(z), Li2(1-z))."""
+    from .numeval import evalf
+
+    return evalf(R.lift(term), {zvar.args[0]: mp.mpf(10) ** -35}, mp=True)
+
+
+def mellin_moment(rsl_parts, zvar, N, assume):
+    """N-th Mellin moment of a distribution given by (reg, sing, loc) terms:
+    int z^(N-1) reg + int (z^(N-1) - 1) sing + loc(0+)."""
+    from .sym import power
+
+    tot = mp.mpf(0)
+    zN = power(zvar, N - 1) if N > 1 else R.const(1)
+    if rsl_parts.get("reg") is not None:
+        tot += first_moment(R.lift(rsl_parts["reg"]) * zN, zvar, assume)[0]
+    if rsl_parts.get("sing") is not None and N > 1:
+        tot += first_moment(R.lift(rsl_parts["sing"]) * (zN - 1), zvar, assume)[0]
+    if rsl_parts.get("loc") is not None:
+        tot += value_at_zero_general(rsl_parts["loc"], zvar)
+    return tot
